@@ -69,6 +69,14 @@ def ev(term, asg):
             return bool(vals[0])
     if isinstance(term, Ite):
         return ev(term.a, asg) if ev(term.cond, asg) else ev(term.b, asg)
+    if isinstance(term, App) and term.name in ('abs', 'numpy.abs', 'numpy.absolute') and len(term.args) == 1:
+        return abs(ev(term.args[0], asg))
+    if isinstance(term, App) and term.name in ('binop:Add', 'binop:Sub', 'binop:Mult') and len(term.args) == 2:
+        a, b = ev(term.args[0], asg), ev(term.args[1], asg)
+        return a + b if term.name == 'binop:Add' else (a - b if term.name == 'binop:Sub' else a * b)
+    if isinstance(term, App) and term.name in ('max', 'min') and len(term.args) >= 2:
+        vals = [ev(a, asg) for a in term.args]
+        return max(vals) if term.name == 'max' else min(vals)
     if isinstance(term, Tup):
         return tuple(ev(i, asg) for i in term.items)
     if isinstance(term, Obj):
